@@ -23,7 +23,7 @@ def gen_strings(ctx):
         strs.append(("x" + chr(cp) + '"').encode())
     # random long strings with runs of quotes
     rng = ctx.rng
-    nrand = 3000 if ctx.tier == "quick" else 60000
+    nrand = 3000 if ctx.tier == "quick" else 300000
     pool = ATOMS + [b'""', b"''", b'"""', b"'''", b"\r\n", b"\\\n", b'\\"', b"-", b"_", b"0", b"Z", b".", b"=", b"b", b"u", b"U"]
     for _ in range(nrand):
         k = rng.choice([5, 6, 7, 8, 12, 20, 40])
